@@ -52,11 +52,12 @@ type kProcPlan struct {
 	// standby of the whole process (timers, goroutines, monotonic clock), measured from the start of the run
 	StandbyAt  time.Duration
 	StandbyFor time.Duration
+	UID        int // user the process runs as (0 = root)
 }
 
 func (p kProcPlan) String() string {
-	return fmt.Sprintf("{off=%v host=%s start=%v excl=%v retry=%v hold=%v work=%v end=%s janitor=%v stall=%d:%v outage=%v+%v attempts=%d remove-lost=%d standby=%v+%v}",
-		p.Offset, p.Host, p.Start, p.Excl, p.Retry, p.Hold, p.WorkEvery, p.End, p.Janitor, p.StallOn, p.Stall, p.OutageAt, p.OutageFor, p.Attempts, p.RemoveLostOn, p.StandbyAt, p.StandbyFor)
+	return fmt.Sprintf("{off=%v host=%s start=%v excl=%v retry=%v hold=%v work=%v end=%s janitor=%v stall=%d:%v outage=%v+%v attempts=%d remove-lost=%d standby=%v+%v uid=%d}",
+		p.Offset, p.Host, p.Start, p.Excl, p.Retry, p.Hold, p.WorkEvery, p.End, p.Janitor, p.StallOn, p.Stall, p.OutageAt, p.OutageFor, p.Attempts, p.RemoveLostOn, p.StandbyAt, p.StandbyFor, p.UID)
 }
 
 func genLockPlans(tp *simrt.Tape) []kProcPlan {
@@ -70,6 +71,7 @@ func genLockPlans(tp *simrt.Tape) []kProcPlan {
 		if !sameHost {
 			p.Host = fmt.Sprintf("host%d", i)
 		}
+		p.UID = []int{0, 1000, 1000, 1001}[tp.Choose(4)]
 		p.Start = []time.Duration{0, 0, 100 * time.Millisecond, 3 * time.Minute, 21 * time.Minute, 26 * time.Minute, 31 * time.Minute}[tp.Choose(7)]
 		p.Excl = tp.Choose(2) == 0
 		p.Retry = []time.Duration{0, 0, 2 * time.Minute, 20 * time.Minute}[tp.Choose(4)]
@@ -248,6 +250,7 @@ func runLocks(r *hx.Rec, property string) {
 			p := s.NewProc(fmt.Sprintf("p%d", i+1), 2000+i, pl.Host)
 			p.ClockOffset = pl.Offset
 			p.SuspendAt, p.SuspendFor = pl.StandbyAt, pl.StandbyFor
+			p.UID = pl.UID
 			cl := store.NewClient(p, 4, true)
 			ps := &pstate{plan: pl, proc: p, cl: cl}
 			ps.faulty = pl.StallOn != 0 || pl.OutageAt != 0 || pl.End == "crash" || pl.RemoveLostOn != 0 || pl.StandbyFor != 0
